@@ -113,6 +113,9 @@ struct Chan {
     wsegs: Vec<Vec<u8>>,
     /// payload bytes the harness drained from the far end
     drained: Vec<u8>,
+    /// the user dropped the key of an operation on this channel: what that operation transferred is
+    /// (legitimately) never reported, so the stream monitors cannot be exact here
+    lossy: bool,
 }
 
 fn mk_pipe() -> (OwnedFd, OwnedFd) {
@@ -156,7 +159,7 @@ fn mk_chan(kind: &str, content: &[u8]) -> Chan {
         }
         _ => panic!("chan kind"),
     };
-    Chan { kind: k, near, far, fed: content.to_vec(), consumed: vec![], segments: vec![], wsegs: vec![], drained: vec![] }
+    Chan { kind: k, near, far, fed: content.to_vec(), consumed: vec![], segments: vec![], wsegs: vec![], drained: vec![], lossy: false }
 }
 
 // ---------------------------------------------------------------------------------------------
@@ -681,7 +684,7 @@ impl World {
         }
         self.drain_all();
         for (c, ch) in self.chans.iter_mut() {
-            if matches!(ch.kind, ChanKind::File) {
+            if matches!(ch.kind, ChanKind::File) || ch.lossy {
                 continue;
             }
             // payload bytes are unique per case, so the pieces can be put back into stream order
@@ -924,6 +927,14 @@ fn exec_inner(case: &Case) -> Exec {
                                 }
                                 None => {
                                     wd.ops.get_mut(&id).unwrap().dropped = true;
+                                    let chans: Vec<usize> = match &wd.ops[&id].kind {
+                                        Kind::Read(c, _) | Kind::Recv(c, _) | Kind::Write(c, _) | Kind::Send(c, _) => vec![*c],
+                                        Kind::Splice(a, b, _) => vec![*a, *b],
+                                        _ => vec![],
+                                    };
+                                    for c in chans {
+                                        wd.chans.get_mut(&c).unwrap().lossy = true;
+                                    }
                                     "none".to_string()
                                 }
                             },
